@@ -633,6 +633,13 @@ func ruleTabCLI(c *Ctx, r *Rep) {
 						}
 						walk(x.X)
 					}
+				case *ssa.Call:
+					// the word is assembled by a module helper: follow what it returns
+					if g := x.Call.StaticCallee(); g != nil && c.InModule(g) && g.Blocks != nil && g.Signature.Results().Len() == 1 {
+						for _, ret := range returnsOf(g) {
+							walk(retResults(ret)[0])
+						}
+					}
 				}
 			}
 			walk(ci.Common().Args[1])
